@@ -157,6 +157,11 @@ type C18Case struct {
 	RegTimeoutMs int `json:"reg_timeout_ms,omitempty"`
 	SyncPods     int `json:"sync_pods,omitempty"`
 	SyncCtrs     int `json:"sync_ctrs,omitempty"`
+	// SyncFn is what the runtime's own synchronization function does during Start:
+	// "" succeeds; "fail_before" returns an error without calling nri's plugin-sync callback
+	// (listing pods failed); "fail_after" calls the callback and then returns an error
+	// (applying the plugins' updates failed). Start then fails as a whole.
+	SyncFn string `json:"runtime_syncfn,omitempty"`
 }
 
 var opKinds = []string{
@@ -414,6 +419,7 @@ func genC18(t *rapid.T) C18Case {
 	}
 	c.SyncPods = rapid.IntRange(0, 3).Draw(t, "syncpods")
 	c.SyncCtrs = rapid.IntRange(0, 3).Draw(t, "syncctrs")
+	c.SyncFn = rapid.SampledFrom([]string{"", "", "", "", "", "", "", "", "fail_before", "fail_after"}).Draw(t, "runtime_syncfn")
 	return c
 }
 
@@ -514,6 +520,9 @@ func validate(c C18Case) error {
 	}
 	if len(c.Exts) > 0 && !c.Listen {
 		return fmt.Errorf("external plugins need the socket")
+	}
+	if c.SyncFn != "" && c.SyncFn != "fail_before" && c.SyncFn != "fail_after" {
+		return fmt.Errorf("unknown runtime_syncfn %q", c.SyncFn)
 	}
 	if len(c.Exts) > 8 {
 		return fmt.Errorf("too many external plugins")
